@@ -916,7 +916,7 @@ def c10_script(rng, nb, nd):
             elif op == 'drop': del s[i]
             elif op == 'reflect' and other: s.insert(i, rng.choice(other))
             elif op == 'flip': s[i] = re.split(r'[~/^]', s[i])[0] + '~%d' % rng.randint(0, 400) if s[i].startswith('f') else s[i]
-            elif op == 'trunc': s[i] = re.split(r'[~/^]', s[i])[0] + '/%d' % rng.randint(0, 30) if s[i].startswith('f') else s[i]
+            elif op == 'trunc': s[i] = re.split(r'[~/^]', s[i])[0] + '/%d' % rng.randint(0, 28) if s[i].startswith('f') else s[i]      # (the shortest frame body is 29 bytes: 13 + the 16-byte tag)
             elif op == 'inject': s.insert(i, 'g%d:%d' % (rng.randint(0, 60), rng.randint(1, 10 ** 6)))
             elif op == 'header-flip': s[i] = re.split(r'[~/^]', s[i])[0] + '^%d' % rng.randint(0, 63) if s[i].startswith('f') else s[i]
             elif op == 'replay-later': s.append(s[i])
@@ -1783,7 +1783,10 @@ def check_C02(run):
             l3.make_tree(src, [('', 'D'), ('d', 'D'), ('d/f', 'F', b'new', 2 * 10**18), ('d/g', 'F', b'new2', 2 * 10**18), ('d/precious.txt', 'F', b'overwritten?', 2 * 10**18), ('e', 'F', b'e', 2 * 10**18)])
             l3.make_tree(dst, [('', 'D'), ('d', 'L', '../outside/dir'), ('old', 'F', b'o', 10**18)][: 3 if vi % 2 else 2])
             subprocess.run(['chmod', '-R', 'a+rX', base], capture_output=True); os.chmod(out + '/dir', 0o777); os.chmod(out + '/dir/precious.txt', 0o666); os.chmod(sb.dir, 0o755)
-            cases.append(('failing-deletion-then-queued-creations', base, src, dst, out, ['--dest-entry-needs-deleting', 'delete'], as_nobody, None))
+            if l4.nobody_can_run():
+                cases.append(('failing-deletion-then-queued-creations', base, src, dst, out, ['--dest-entry-needs-deleting', 'delete'], as_nobody, None))
+            else:
+                run.count('skipped:uid-65534-cannot-run-the-binary')
         for kind, base, src, dst, out, args, pre, spelling in cases:
             finding = None
             before = {k: l3.snapshot(p) for k, p in (('src', src), ('outside', out))}
@@ -1954,13 +1957,17 @@ def check_C07(run):
         def as_nobody():
             os.setgroups([]); os.setgid(65534); os.setuid(65534)
         os.chmod(sb.dir, 0o755); os.chmod(base, 0o777); os.makedirs(dst); os.chmod(dst, 0o777)
-        outcomes.append(('EACCES-source-dir', l4.run_cli([src + '/', dst + '/'], env=sb.env(), timeout=60, preexec=as_nobody), dst))
+        if l4.nobody_can_run():
+            outcomes.append(('EACCES-source-dir', l4.run_cli([src + '/', dst + '/'], env=sb.env(), timeout=60, preexec=as_nobody), dst))
+        else:
+            run.count('skipped:uid-65534-cannot-run-the-binary')
         os.chmod(os.path.join(src, 'sub'), 0o755)
         # unwritable destination folder
         base, src, dst = tree('unwritable')
         l3.make_tree(src, [('', 'D'), ('a', 'F', b'a', 10**18), ('b', 'F', b'b', 10**18)])
         os.chmod(base, 0o777); os.makedirs(dst); os.chmod(dst, 0o555)
-        outcomes.append(('EACCES-dest-dir', l4.run_cli([src + '/', dst + '/'], env=sb.env(), timeout=60, preexec=as_nobody), dst))
+        if l4.nobody_can_run():
+            outcomes.append(('EACCES-dest-dir', l4.run_cli([src + '/', dst + '/'], env=sb.env(), timeout=60, preexec=as_nobody), dst))
         os.chmod(dst, 0o755)
         # EFBIG: the destination accepts only `lim` bytes of a file (RLIMIT_FSIZE, SIGXFSZ ignored): limit inside the first part,
         # on a part boundary, inside a middle part, inside the last part, one byte short; exit 0 <=> the copy is complete
@@ -2204,6 +2211,8 @@ def check_C09(run):
             if fault == 'dest-error-ENOTEMPTY':
                 args += ['--filter', '-aaa/keep.txt']
             elif fault == 'dest-unwritable':
+                if not l4.nobody_can_run():
+                    run.count('skipped:uid-65534-cannot-run-the-binary'); shutil.rmtree(base, ignore_errors=True); continue
                 os.chmod(sb.dir, 0o755); os.chmod(base, 0o777); os.chmod(dst, 0o555)
                 subprocess.run(['chmod', '-R', 'a+rX', src])
                 def pre():
